@@ -203,6 +203,12 @@ func (r *RunResult) String() string {
 // PlanBulkUpdate, BulkUpdate, Close on a fresh database object. Panics are
 // recovered and reported.
 func RunFS(fsys filesystem.Filesystem, strat int) (res RunResult) {
+	return RunFSWith(fsys, strat, nil)
+}
+
+// RunFSWith is RunFS with a step between opening the database and planning, for callers that feed
+// the database through its API (AddProfile) instead of through files.
+func RunFSWith(fsys filesystem.Filesystem, strat int, setup func(db.Database) error) (res RunResult) {
 	defer func() {
 		if p := recover(); p != nil {
 			if p == ErrDied {
@@ -218,6 +224,12 @@ func RunFS(fsys filesystem.Filesystem, strat int) (res RunResult) {
 		return
 	}
 	defer d.Close()
+	if setup != nil {
+		if err := setup(d); err != nil {
+			res.Stage, res.Err = "setup", err.Error()
+			return
+		}
+	}
 	if strat == 0 {
 		return
 	}
@@ -245,10 +257,17 @@ func RunFS(fsys filesystem.Filesystem, strat int) (res RunResult) {
 // so that everything written by the run is newer than what was there.
 func Run(d *Dir, strat int) RunResult { return RunFault(d, strat, nil) }
 
-func RunFault(d *Dir, strat int, f Fault) RunResult {
+func RunFault(d *Dir, strat int, f Fault) RunResult { return RunFaultWith(d, strat, f, nil) }
+
+// RunWith is Run with a database setup step (see RunFSWith).
+func RunWith(d *Dir, strat int, setup func(db.Database) error) RunResult {
+	return RunFaultWith(d, strat, nil, setup)
+}
+
+func RunFaultWith(d *Dir, strat int, f Fault, setup func(db.Database) error) RunResult {
 	d.Tick(10)
 	m := &MemFS{D: d, Fault: f}
-	res := RunFS(m, strat)
+	res := RunFSWith(m, strat, setup)
 	for _, w := range m.Writes {
 		res.Writes = append(res.Writes, w.Path)
 	}
